@@ -1586,6 +1586,11 @@ class Engine:
             for (label, f, props) in cg(self, st, cargs):
                 self.oblige(st, f, 'guard', '%s.%s@L%s' % (short.split('.')[-1], label, line),
                             props=props, line=line)
+        # lockset at a call: a helper that reads or writes guarded state on behalf of the caller
+        # (documented "acquires the locks first") is called only with those locks held
+        for lock in (getattr(self.cur_contract, 'lock_calls', None) or {}).get(short, ()):
+            self.oblige(st, z3.BoolVal(lock in st.locks), 'lockset',
+                        'call.%s.%s@L%s' % (short.split('.')[-1], lock, line), line=line)
         # recursion: termination measure
         if self.cur is not None and fi.qualname == self.cur.qualname and con.decreases is not None:
             d_callee = con.decreases(c0)
